@@ -4,6 +4,8 @@ set -e
 cd "$(dirname "$0")"
 for f in spec/*.tla; do
   case "$f" in *Trace.tla) continue;; esac
+  # wrappers that use Apalache's own module (Gen) are parsed by apalache-mc in their check, SANY has no such module
+  if grep -q "^EXTENDS.*Apalache" "$f"; then continue; fi
   ( cd spec && java -cp /opt/veriftools/tla/tla2tools.jar:/opt/veriftools/tla/CommunityModules-deps.jar tla2sany.SANY "$(basename "$f")" > /tmp/sany.$$ 2>&1 ) || { cat /tmp/sany.$$; rm -f /tmp/sany.$$; exit 1; }
   if grep -qE "Semantic errors|Parse Error|Fatal errors" /tmp/sany.$$; then cat /tmp/sany.$$; rm -f /tmp/sany.$$; exit 1; fi
   rm -f /tmp/sany.$$
